@@ -337,7 +337,7 @@ func (g *fmGen) program(improper bool, overGroup bool) Sx {
 
 func genFieldmap(c *Ctx) {
 	g := &fmGen{c}
-	run := func(in Sx) { c.Emit(in, runFieldmap(in)) }
+	run := func(in Sx) { c.Pending(in); c.Emit(in, runFieldmap(in)) }
 	// fixed regression shapes first: remove->set, clear->set, copy of a group, set over a group
 	h8 := L(Sym("set"), Sym("h"), Int(8), Str("FIX.4.2"), Sym("string"))
 	h35 := L(Sym("set"), Sym("h"), Int(35), Str("D"), Sym("string"))
